@@ -22,6 +22,8 @@ from verif import scen  # installs the in-process fake ray before resonaate is i
 from verif.oracles import force_ref as fr
 
 from resonaate.common.labels import GeopotentialModel
+from resonaate.data import setDBPath
+from resonaate.dynamics import dynamicsFactory
 from resonaate.dynamics import special_perturbations as sp_mod
 from resonaate.dynamics.special_perturbations import SpecialPerturbations, calcSatRatio
 from resonaate.physics import constants as const
@@ -35,8 +37,11 @@ from resonaate.physics.bodies.gravitational_potential import (
 from resonaate.physics.sensor_utils import calculateIncidentSolarFlux, calculateSunVizFraction
 from resonaate.physics.time.stardate import datetimeToJulianDate
 from resonaate.physics.transforms.methods import ecef2eci
+from resonaate.scenario.clock import ScenarioClock
+from resonaate.scenario.config.agent_config import AgentConfig
 from resonaate.scenario.config.geopotential_config import GeopotentialConfig
 from resonaate.scenario.config.perturbations_config import PerturbationsConfig
+from resonaate.scenario.config.propagation_config import PropagationConfig
 
 PROPERTY = "C13"
 LEVEL = "model_checking"
@@ -165,7 +170,94 @@ def _epochs(tier, seed):
             out.append((f"edge32_at_{k + 1}", ek - timedelta(seconds=STEP), STEP, True))
             out.append((f"edge32_minus_{(1, 20, 400)[k % 3]}ms_{k + 1}", ek - h8, 28800.0 - (0.001, 0.02, 0.4)[k % 3], False))
             out.append((f"edge4_minus_{(100, 5)[k % 2]}ms_{k + 1}", ek + timedelta(days=4 * (k + 1)) - h8, 28800.0 - (0.1, 0.005)[k % 2], False))
+    out += _calendar_epochs(tier, seed)
     return [(lab, st.isoformat(), t, g) for lab, st, t, g in out]
+
+
+# Calendar branch points of the Julian date -> (year, month, day) conversion that the force model goes through for the
+# Earth-orientation row and the sidereal angle.  The conversion estimates the year as 1900 + floor(days / 365.25) and
+# steps back one year when the estimate is already the next year: that happens on 31 December from 06:00 (leap year),
+# 12:00 (leap year + 1), 18:00 (leap year + 2), never (leap year + 3); month / day come from a leap-year dependent table
+# (February).  A conversion that is one day (0.9856 deg of sidereal angle, another EOP row) or one month off shows in the
+# tesseral part of the geopotential only, and only at such instants.
+CAL_LEAP_YEARS = (2016, 2020)
+CAL_COMMON_YEARS = (2017, 2018, 2019, 2021)
+
+
+def _cal_entry(label, instant: datetime):
+    """Epoch entry that reaches `instant` the way a running scenario does (start some hours earlier, often on the previous
+    day / year): multiples of 675 s from a start 3 h earlier (exact Julian dates), the others from a start 8 h earlier."""
+    sec = instant.hour * 3600 + instant.minute * 60 + instant.second
+    if instant.microsecond == 0 and sec % STEP == 0:  # 10800 s = 16 x 675 s: the start is on the grid as well
+        return (label, instant - timedelta(seconds=10800), 10800.0, True)
+    return (label, instant - timedelta(hours=8), 28800.0, False)
+
+
+def _year_end_instants(year):
+    return [
+        (f"{year}_dec30_1200", datetime(year, 12, 30, 12, 0, 0)),
+        (f"{year}_dec31_0559_30", datetime(year, 12, 31, 5, 59, 30)),
+        (f"{year}_dec31_0600_30", datetime(year, 12, 31, 6, 0, 30)),
+        (f"{year}_dec31_1200", datetime(year, 12, 31, 12, 0, 0)),
+        (f"{year}_dec31_2359_30", datetime(year, 12, 31, 23, 59, 30)),
+        (f"{year + 1}_jan01_0000_30", datetime(year + 1, 1, 1, 0, 0, 30)),
+    ]
+
+
+def _calendar_epochs(tier, seed):
+    """(label, start datetime, t seconds, on_grid) - labels start with 'cal_'."""
+    out = []
+    common = CAL_COMMON_YEARS[seed % 4]
+    years = list(CAL_LEAP_YEARS) + [common]
+    if tier == "thorough":
+        years = list(range(2014, 2022))
+    for y in years:
+        for lab, inst in _year_end_instants(y):
+            out.append(_cal_entry(f"cal_{lab}", inst))
+    # the year-estimate threshold of every other year of the span (both sides), where the step-back branch starts
+    for y, hh in ((2014, 18), (2017, 12), (2018, 18), (2021, 12)):
+        out.append(_cal_entry(f"cal_{y}_dec31_{hh - 1}59_30", datetime(y, 12, 31, hh - 1, 59, 30)))
+        out.append(_cal_entry(f"cal_{y}_dec31_{hh}00_30", datetime(y, 12, 31, hh, 0, 30)))
+    if tier != "thorough" and common != 2019:
+        out.append(_cal_entry("cal_2019_dec31_2359_30", datetime(2019, 12, 31, 23, 59, 30)))
+    # the middle of the step-back window of the leap years
+    for y in CAL_LEAP_YEARS:
+        out.append(_cal_entry(f"cal_{y}_dec31_1800_30", datetime(y, 12, 31, 18, 0, 30)))
+    # February: of a leap year (both in the thorough tier) and of a common year
+    leap = CAL_LEAP_YEARS[seed % 2]
+    for y in (CAL_LEAP_YEARS if tier == "thorough" else (leap,)):
+        out.append(_cal_entry(f"cal_{y}_jan31_2359_30", datetime(y, 1, 31, 23, 59, 30)))
+        out.append(_cal_entry(f"cal_{y}_feb01_0000_30", datetime(y, 2, 1, 0, 0, 30)))
+        out.append(_cal_entry(f"cal_{y}_feb29_1200", datetime(y, 2, 29, 12, 0, 0)))
+        out.append(_cal_entry(f"cal_{y}_mar01_0000_30", datetime(y, 3, 1, 0, 0, 30)))
+    out.append(_cal_entry(f"cal_{common}_feb28_2359_30", datetime(common, 2, 28, 23, 59, 30)))
+    out.append(_cal_entry(f"cal_{common}_mar01_0000_30", datetime(common, 3, 1, 0, 0, 30)))
+    # last and first half minute of an ordinary day
+    day = datetime(2014, 1, 2) + timedelta(days=(seed * 7919 + 1234) % 3190)
+    if (day.month, day.day) in ((12, 31), (12, 30), (1, 1), (2, 28), (2, 29), (3, 1), (1, 31), (2, 1)):
+        day += timedelta(days=9)
+    out.append(_cal_entry("cal_ordinary_day_2359_30", datetime(day.year, day.month, day.day, 23, 59, 30)))
+    out.append(_cal_entry("cal_ordinary_day_0000_30", datetime(day.year, day.month, day.day, 0, 0, 30) + timedelta(days=1)))
+    return out
+
+
+def _is_cal(e):
+    return str(e[0]).startswith("cal_")
+
+
+def _cal_geo_labels(tier, seed):
+    """Calendar epochs of the geopotential lattice (the first two also of the batch lattices)."""
+    common, leap = CAL_COMMON_YEARS[seed % 4], CAL_LEAP_YEARS[seed % 2]
+    return [
+        "cal_2020_dec31_1200",
+        "cal_2016_dec31_2359_30",
+        "cal_2020_dec31_0600_30",
+        "cal_2016_dec31_0559_30",
+        "cal_2021_jan01_0000_30",
+        f"cal_{common}_dec31_1200",
+        f"cal_{leap}_feb29_1200",
+        f"cal_{leap}_mar01_0000_30",
+    ]
 
 
 def _ref_jd(dt: datetime) -> float:
@@ -361,9 +453,13 @@ def items(tier, seed):
     else:
         geo_eps.append(by["off_grid"])
     nm = _nm_list(tier)
+    cal_geo = [by[lab] for lab in _cal_geo_labels(tier, seed)]
+    geo_eps += cal_geo
     for e in geo_eps:
         for model in MODELS:
             if e[0] == "off_grid" and tier != "thorough" and model != "egm2008.txt":
+                continue
+            if _is_cal(e) and tier != "thorough" and model != MODELS[cal_geo.index(e) % 4]:
                 continue
             for ai in range(len(ALT_RADII)):
                 for chunk in fw.chunked(nm, 16):
@@ -373,8 +469,9 @@ def items(tier, seed):
         for ai in range(len(ALT_RADII)):
             out.append(("perturb", list(e), ai, ei, subsets))
     ks = [1, 2, 3, 4] + ([5, 8] if tier == "thorough" else [])
+    cal_batch = [by[lab] for lab in _cal_geo_labels(tier, seed)[:2]]
     for k in ks:
-        for ei, e in enumerate(ep if tier == "thorough" else ep[:6]):
+        for ei, e in enumerate(ep if tier == "thorough" else ep[:6] + cal_batch):
             out.append(("batch", list(e), k, ei))
     nmax_h = 40 if tier == "thorough" else 21
     for chunk in fw.chunked(list(range(0, nmax_h + 1)), 3):
@@ -382,7 +479,8 @@ def items(tier, seed):
     for model in MODELS:
         out.append(("coeff", model))
     for e in ep:
-        out.append(("direct", list(e)))
+        if not _is_cal(e):  # formulae at given body positions: no Julian date -> calendar conversion involved
+            out.append(("direct", list(e)))
     for ai in range(len(ALT_RADII)):
         out.append(("sunfrac", ai, seed))
     for body in fr.BODIES:
@@ -395,8 +493,12 @@ def items(tier, seed):
     for target in _batch_targets():
         out.append(("ephem_batch", target, seed, tier))
     lay_eps = [by["seed_day"], by["edge4_at"]] if tier != "thorough" else ep[:13]
+    lay_eps = lay_eps + cal_batch[:1] + (cal_geo[2:] if tier == "thorough" else [])
     for ei, e in enumerate(lay_eps):
         out.append(("batch_layouts", list(e), ei))
+    for fi in range(len(_factory_starts(seed))):
+        for T in FACTORY_T:
+            out.append(("factory", fi, T, seed))
     for year in range(2014, 2023):
         out.append(("ephem_analytic", year, seed))
     out.append(("constants",))
@@ -795,6 +897,131 @@ def _run_batch_layouts(res, item):
         if pattern == "ends_same_interior_other":
             res.observe(out)
 
+
+# ------------------------------------------------------------------------------------------------ factory + clock
+# The dynamics object of an agent is built by dynamicsFactory from the scenario clock; for agents added while the
+# scenario runs (Scenario.addTarget / addSensor) the clock already shows T elapsed seconds, and the object is then
+# propagated with scenario times T + t (seconds since the scenario START).  Elapsed times: 0, one / two clock steps,
+# 1 h, 3 h (on the 675 s grid), 1 day, 3 days.
+FACTORY_T = (0.0, 300.0, 600.0, 3600.0, 10800.0, 86400.0, 259200.0)
+FACTORY_DT = (0.0, 150.0, 675.0)  # s after the build time at which the derivative is evaluated
+FACTORY_CLOCK_STEP = 300.0
+# (coefficient file, degree, order, third bodies, SRP, GR, platform (mass kg, visual cross-section m^2, reflectivity), integrator)
+FACTORY_CFG = (
+    ("egm96.txt", 4, 4, ("sun", "moon"), True, True, (500.0, 25.0, 0.21), "RK45"),
+    ("egm2008.txt", 8, 5, ("sun", "moon", "jupiter", "saturn", "venus"), True, False, (100.0, 10.0, 0.0), "DOP853"),
+    ("jgm3.txt", 2, 0, ("moon",), False, True, (1500.0, 4.0, 1.0), "RK45"),  # zonal only: the epoch shows in the Moon term alone
+    ("GGM03S.txt", 3, 1, (), False, False, (4.0, 0.1, 0.3), "RK45"),  # geopotential only: the epoch shows in the frame alone
+)
+FACTORY_STATES = (("sunside", 0), ("pen_0.5", 1), ("umbra_axis", 3), ("perpendicular", 0), ("far_lit", 2))  # (geometry, radius index)
+
+
+def _factory_starts(seed):
+    """Scenario start instants (label, datetime, on the 675 s grid)."""
+    seed_day = datetime(2014, 1, 2) + timedelta(days=(seed * 7919 + 4321) % 3180, seconds=41 * STEP)
+    return [
+        ("seed_day", seed_day, True),
+        ("first_eop_day", datetime(2014, 1, 1, 0, 0, 0), True),
+        ("leap_year_end", datetime(2020, 12, 30, 18, 0, 0), True),  # + 1 day: inside 31 Dec of a leap year; + 3 days: next year
+        ("ms_start", datetime(2019, 7, 4, 3, 22, 30, 250000), False),  # start timestamp with milliseconds
+    ]
+
+
+def _factory_clock(start: datetime, T: float):
+    """A real ScenarioClock (fresh in-memory database for its epoch rows) started at `start` and ticked to T seconds."""
+    step = FACTORY_CLOCK_STEP if T <= 10800.0 else 3600.0
+    scen.fresh()
+    setDBPath("sqlite://")
+    n = int(round(T / step))
+    if n * step != T:
+        raise RuntimeError(f"harness: elapsed time {T} is not a multiple of the clock step {step}")
+    clk = ScenarioClock(start, (n + 2) * step, step)
+    for _ in range(n):
+        clk.ticToc()
+    if float(clk.time) != float(T):
+        raise RuntimeError(f"harness: clock at {float(clk.time)} instead of {T}")
+    return clk
+
+
+def _factory_dynamics(start, T, cfg):
+    """dynamicsFactory called the way ScenarioBuilder / Scenario.addTarget call it."""
+    model, degree, order, bodies, srp, gr, (mass, vcs, refl), method = cfg
+    agent = AgentConfig(
+        name="added",
+        id=41300,
+        platform={"type": "spacecraft", "mass": mass, "visual_cross_section": vcs, "reflectivity": refl},
+        state={"type": "eci", "position": [7000.0, 0.0, 0.0], "velocity": [0.0, 7.5, 0.0]},
+    )
+    prop = PropagationConfig(propagation_model="special_perturbations", integration_method=method)
+    geo = GeopotentialConfig(model=model, degree=degree, order=order)
+    pert = PerturbationsConfig(third_bodies=list(bodies), solar_radiation_pressure=srp, general_relativity=gr)
+    return dynamicsFactory(agent, prop, geo, pert, _factory_clock(start, T))
+
+
+def _run_factory(res, item):
+    _, fi, T, seed = item
+    T = float(T)
+    slabel, start, start_grid = _factory_starts(seed)[fi]
+    for ci, cfg in enumerate(FACTORY_CFG):
+        model, degree, order, bodies, srp, gr, (mass, vcs, refl), method = cfg
+        bodies = list(bodies)
+        ratio = (1.0 + refl) * vcs / mass  # cannonball area-to-mass ratio with the reflectivity coefficient (own formula)
+        dyn = _factory_dynamics(start, T, cfg)
+        res.case(
+            "factory/type",
+            {"start": slabel, "T": T, "config": ci},
+            type(dyn) is SpecialPerturbations,
+            nontrivial=True,
+            signature="C13/factory/type",
+            observed=type(dyn).__name__,
+            item=item,
+        )
+        if not isinstance(dyn, SpecialPerturbations):
+            continue
+        direct = _dyn(start, model, degree, order, bodies, srp, gr, ratio)
+        for dt_s in FACTORY_DT:
+            t = T + dt_s  # scenario time = seconds since the scenario start
+            on_grid = bool(start_grid and t % STEP == 0.0)
+            sun = fr.body_position(_ref_jd(start + timedelta(seconds=t)), "sun")
+            for si, (geom, ai) in enumerate(FACTORY_STATES):
+                r = _geometry_state(geom, ALT_RADII[ai], sun, si + ci)
+                v = _circ_velocity(r, si + ci + fi)
+                state = np.concatenate((r, v))
+                case = {"start": slabel, "T": T, "dt": dt_s, "config": ci, "model": model, "degree": degree, "order": order,
+                        "bodies": "+".join(bodies) or "none", "srp": srp, "gr": gr, "geometry": geom, "radius_km": ALT_RADII[ai]}
+                res.extra["derivative_evaluations"] = res.extra.get("derivative_evaluations", 0) + 2
+                got = dyn._differentialEquation(t, state.copy())
+                terms = _oracle_terms(start, t, r, v, model, degree, order, ratio)
+                want, pert = _expected(terms, bodies, srp, gr)
+                tol = _tol_total(terms, pert, on_grid)
+                err = _err_total(res, got[3:], want, terms, tol)
+                ok = bool(err <= tol) and bool(np.array_equal(got[:3], v)) and bool(np.all(np.isfinite(got)))
+                res.case(
+                    "factory/equals_reference",
+                    case,
+                    ok,
+                    nontrivial=T > 0.0,
+                    signature=f"C13/factory/vs_reference/{'built_at_start' if T == 0.0 else 'built_mid_run'}",
+                    observed={"a": got[3:], "err": err, "tol": tol},
+                    expected=want,
+                    outcome=("agree" if ok else "differ") + ("/T=0" if T == 0.0 else "/T>0"),
+                    item=item,
+                )
+                # the same configuration constructed directly with the Julian date of the scenario start: same object
+                # state, same arithmetic -> identical numbers
+                same = dyn._differentialEquation(t, state.copy())
+                ref2 = direct._differentialEquation(t, state.copy())
+                res.case(
+                    "factory/equals_direct_construction",
+                    case,
+                    bool(np.array_equal(got, ref2)) and bool(np.array_equal(got, same)),
+                    nontrivial=T > 0.0,
+                    signature="C13/factory/vs_direct_construction",
+                    observed=got,
+                    expected=ref2,
+                    item=item,
+                )
+                res.observe(got)
 
 # ------------------------------------------------------------------------------------------------ harmonics
 def _harm_positions():
@@ -1839,6 +2066,8 @@ def _dispatch(res, item):
         _run_ephem_batch(res, item)
     elif kind == "batch_layouts":
         _run_batch_layouts(res, item)
+    elif kind == "factory":
+        _run_factory(res, item)
     elif kind == "constants":
         _run_constants(res, item)
     elif kind == "oracle_selfcheck":
